@@ -59,7 +59,8 @@ def bindings_of(fn, name):
                 if isinstance(t, ast.Name) and t.id == name:
                     out.append(Binding("assign", n, n.value))
                 elif isinstance(t, (ast.Tuple, ast.List)) and any(isinstance(e, ast.Name) and e.id == name for e in ast.walk(t)):
-                    out.append(Binding("other", n))
+                    plain = len(n.targets) == 1 and all(isinstance(e, ast.Name) for e in t.elts)
+                    out.append(Binding("unpack" if plain else "other", n, n.value))
         elif isinstance(n, ast.AnnAssign) and isinstance(n.target, ast.Name) and n.target.id == name and n.value is not None:
             out.append(Binding("assign", n, n.value))
         elif isinstance(n, ast.AugAssign) and isinstance(n.target, ast.Name) and n.target.id == name:
@@ -140,6 +141,7 @@ class Slice:
         self.stmts = []       # [(order key, ast.stmt)]
         self.sources = {}     # param name -> role ("target" | "source")
         self.notes = []
+        self.map_flows = []   # [(map name, read binding node, store statement)]: values that reach the sink through a local lookup table
         self.ok = True
         self.why = ""
 
@@ -192,12 +194,24 @@ class Slicer:
             if name in self.extra_sources:
                 self.sl.sources[name] = "source"
                 return
+            if self.whole_if(name, at):
+                return
             return self.fail(f"no unique reaching definition of `{name}`")
         if b.kind in ("param", "for", "with"):
             self.sl.sources[name] = "source"
             return
         if b.kind == "other":
             return self.fail(f"`{name}` is bound by a statement the slicer does not follow")
+        if b.kind == "unpack":
+            # `a, b, c = <expr>`: the whole (copied) statement joins the slice
+            if self.opaque_source(b.value) or self.is_target_expr(b.value):
+                return self.fail(f"`{name}` is unpacked from a lookup")
+            v2 = self.need_expr(b.value, b.node)
+            import copy as _copy
+            self.emit(b.node, ast.Assign(targets=[_copy.deepcopy(b.node.targets[0])], value=v2))
+            for e in b.node.targets[0].elts:
+                self.done[(e.id, id(b.node))] = True
+            return
         value = b.value
         if self.is_target_expr(value):
             # `name = <relationship target lookup>`: the name itself is the target parameter
@@ -213,6 +227,7 @@ class Slicer:
                 v2 = self.need_expr(st.value, st)
                 self.emit(b.node, ast.Assign(targets=[ast.Name(id=name, ctx=ast.Store())], value=v2))
                 self.sl.notes.append(f"{name} flows through map {value.value.id}")
+                self.sl.map_flows.append((value.value.id, b.node, st))
                 return
             if not stores:
                 self.sl.sources[name] = "source"
@@ -223,6 +238,61 @@ class Slicer:
             return
         v2 = self.need_expr(value, b.node)
         self.emit(b.node, ast.Assign(targets=[ast.Name(id=name, ctx=ast.Store())], value=v2))
+
+    def whole_if(self, name, at):
+        """`name` is assigned on every branch of one if / elif / else statement that precedes `at` in an enclosing block (and nowhere
+        else in between): the whole conditional (a copy of the real statement, branches of plain assignments only) joins the slice."""
+        anc_ids = set(id(a) for a in ancestors(self.pm, at)) | {id(self.fn)}
+        cands = []
+        for n in ast.walk(self.fn):
+            if isinstance(n, ast.If) and pos(n) < pos(at) and id(self.pm.get(n)) in anc_ids:
+                cands.append(n)
+        cands.sort(key=pos)
+        binds = [b for b in bindings_of(self.fn, name) if b.kind != "param" and pos(b.node) < pos(at)]
+
+        def assigns_all(stmts):
+            for st in stmts:
+                if isinstance(st, ast.Assign) and any(isinstance(t, ast.Name) and t.id == name for t in st.targets):
+                    return True
+                if isinstance(st, ast.If) and st.orelse and assigns_all(st.body) and assigns_all(st.orelse):
+                    return True
+            return False
+
+        def plain(stmts):
+            for st in stmts:
+                if isinstance(st, ast.If):
+                    if not (plain(st.body) and plain(st.orelse)):
+                        return False
+                elif not (isinstance(st, (ast.Assign, ast.Pass)) and all(isinstance(t, ast.Name) for t in getattr(st, "targets", []))):
+                    return False
+            return True
+        for S in reversed(cands):
+            inside = set(id(x) for x in ast.walk(S))
+            later = [b for b in binds if pos(b.node) > pos(S)]
+            if not later or not all(id(b.node) in inside for b in later):
+                continue
+            if not (S.orelse and assigns_all(S.body) and assigns_all(S.orelse) and plain(S.body) and plain(S.orelse)):
+                return False
+            import copy as _copy
+            S2 = _copy.deepcopy(S)
+            assigned = {t.id for x in ast.walk(S) if isinstance(x, ast.Assign) for t in x.targets if isinstance(t, ast.Name)}
+            me = self
+
+            class T(ast.NodeTransformer):
+                def generic_visit(self, node):
+                    if isinstance(node, ast.expr) and me.is_target_expr(node):
+                        me.sl.sources["__target"] = "target"
+                        return ast.copy_location(ast.Name(id="__target", ctx=ast.Load()), node)
+                    return super().generic_visit(node)
+            S2 = T().visit(S2)
+            for x in ast.walk(S2):
+                if isinstance(x, ast.Name) and isinstance(x.ctx, ast.Load) and x.id in self.locals and x.id not in assigned and x.id != "__target":
+                    self.need_name(x.id, S)
+            ast.fix_missing_locations(S2)
+            self.sl.stmts.append((pos(S), len(self.sl.stmts), S2))
+            self.sl.notes.append(f"{name} is defined by the conditional at line {S.lineno}")
+            return self.sl.ok
+        return False
 
     def opaque_source(self, value):
         """Lookups in XML elements / relationship dictionaries other than the target: inputs of the slice."""
@@ -283,3 +353,24 @@ def is_lookup_of(expr, keys):
     if isinstance(expr, ast.Subscript) and not isinstance(expr.slice, ast.Slice):
         return key_ok(expr.slice)
     return False
+
+
+def table_scope(fn, pm, mname, read_node, store_stmt):
+    """A value read from the local lookup table `mname` at `read_node` is the value stored by `store_stmt` *for the current source
+    part* only if the table is re-initialised inside every loop that encloses both the store and the read: otherwise entries
+    written in earlier iterations of that loop (for other source parts) are still visible to the read.
+    -> (ok, detail) ; ok None: shape not recognised."""
+    b = reaching(fn, pm, mname, read_node)
+    if b is None or b.kind != "assign":
+        return None, f"no unique initialisation of {mname} reaches its use"
+    v = b.value
+    empty = (isinstance(v, ast.Dict) and not v.keys) or (isinstance(v, ast.Call) and dotted(v.func) == "dict" and not v.args and not v.keywords)
+    if not empty:
+        return None, f"{mname} is initialised by {ast.unparse(v)[:60]}"
+    init_anc = set(id(a) for a in ancestors(pm, b.node))
+    common = [a for a in ancestors(pm, read_node) if isinstance(a, (ast.For, ast.While)) and id(a) in set(id(x) for x in ancestors(pm, store_stmt))]
+    outside = [l for l in common if id(l) not in init_anc]
+    if outside:
+        return False, (f"{mname} is created at line {b.node.lineno}, outside the loop at line {outside[-1].lineno} that both fills and reads it: entries of earlier "
+                       f"iterations (other source parts) stay visible, so a key that the current part does not define resolves to another part's value")
+    return True, ""
